@@ -225,6 +225,14 @@ def check(case, obs):
 
     out = run(d, chans, mef_values)
     imbalanced = max(case['sizes']) / float(min(case['sizes'])) > 1.5
+    if raised(out) and 'at least three values' in repr(out) and case.get('blank_step') and case['blank']:
+        # unknown values, a piled-up population and a far blank discarded at the display edge (accepted either way, see
+        # below) can together leave fewer than the three populations a fit needs: a documented refusal, not a failure
+        left = [npop - len({p for p, _ in case['unknown'].get(str(c), [])} | ({0} if True else set())
+                           | ({npop - 1} if _piled(case, c) == 'brightest' else set())) for c in range(nch)]
+        if min(left) < 3:
+            obs.exclude('refused_fewer_than_three_after_dim_blank_discard')
+            return
     if raised(out):
         obs.fail('grouping_imbalanced' if imbalanced else 'returns', 'get_transform_fxn raised %r (sizes %r)' % (out, case['sizes']))
         return
